@@ -46,6 +46,15 @@ func (self Node) should2(api string, t1 thrift.Type, t2 thrift.Type) string {
 	return fmt.Sprintf("API `%s` only supports %s or %s type", api, t1, t2)
 }
 
+// sizeHint bounds an element count declared by the data by the bytes that are left:
+// every element takes at least one byte, a larger count belongs to malformed data and must not size an allocation.
+func sizeHint(size int, left int) int {
+	if size > left {
+		return left
+	}
+	return size
+}
+
 // Len returns the element count of container-kind type (LIST/SET/MAP)
 func (self Node) Len() (int, error) {
 	if self.IsError() {
@@ -207,7 +216,7 @@ func (self Node) List(opts *Options) ([]interface{}, error) {
 	if it.Err != nil {
 		return nil, it.Err
 	}
-	ret := make([]interface{}, 0, it.Size())
+	ret := make([]interface{}, 0, sizeHint(it.Size(), it.p.Left()))
 	for it.HasNext() {
 		s, e := it.Next(opts.UseNativeSkip)
 		if it.Err != nil {
@@ -238,7 +247,7 @@ func (self Node) StrMap(opts *Options) (map[string]interface{}, error) {
 	if self.kt != thrift.STRING {
 		return nil, errNode(meta.ErrUnsupportedType, "key type must by STRING", nil)
 	}
-	ret := make(map[string]interface{}, it.Size())
+	ret := make(map[string]interface{}, sizeHint(it.Size(), it.p.Left()))
 	for it.HasNext() {
 		_, ks, s, e := it.NextStr(opts.UseNativeSkip)
 		if it.Err != nil {
@@ -269,7 +278,7 @@ func (self Node) IntMap(opts *Options) (map[int]interface{}, error) {
 	if it.Err != nil {
 		return nil, it.Err
 	}
-	ret := make(map[int]interface{}, it.Size())
+	ret := make(map[int]interface{}, sizeHint(it.Size(), it.p.Left()))
 	for it.HasNext() {
 		_, ks, s, e := it.NextInt(opts.UseNativeSkip)
 		if it.Err != nil {
@@ -302,7 +311,7 @@ func (self Node) InterfaceMap(opts *Options) (map[interface{}]interface{}, error
 	if it.Err != nil {
 		return nil, it.Err
 	}
-	ret := make(map[interface{}]interface{}, it.Size())
+	ret := make(map[interface{}]interface{}, sizeHint(it.Size(), it.p.Left()))
 	for it.HasNext() {
 		_, ks, s, e := it.NextBin(opts.UseNativeSkip)
 		if it.Err != nil {
